@@ -59,6 +59,8 @@ STRONG_PSP = [2047, 3277, 4033, 4681, 8321, 1373653, 25326001, 3215031751, 21523
 NIST_PRIMES = [2 ** 192 - 2 ** 64 - 1, 2 ** 224 - 2 ** 96 + 1, 2 ** 256 - 2 ** 224 + 2 ** 192 + 2 ** 96 - 1,
                2 ** 384 - 2 ** 128 - 2 ** 96 + 2 ** 32 - 1, 2 ** 521 - 1, 2 ** 255 - 19, 2 ** 127 - 1, 2 ** 89 - 1,
                2 ** 61 - 1, 2 ** 31 - 1, 2 ** 256 - 2 ** 32 - 977, 2 ** 448 - 2 ** 224 - 1, 2 ** 607 - 1]
+# p * (2p - 1), p prime = 1 mod 4, 861 bits: a strong pseudoprime to the bases 2, 3, 5 and 7 (found by search)
+SPSP_861 = 0x10a40f7fd145e4202121f9347de687be47d1f7a8ddd3d6066e9a1744654b799676e1308d480921ca39b04600d47c7b648051be1bcdafc0f177485c9a456d6a6c4cf6f125bb82b06e47d89dcbced47955ffe58eca2f82835a989f053766f654bcf3c9d19b4ac9db779e380925
 K256_N = 0xFFFFFFFFFFFFFFFFFFFFFFFFFFFFFFFEBAAEDCE6AF48A03BBFD25E8CD0364141
 BN256_N = 0xB64000000000FF2F2200000085FD547FD8001F44B6B7F4B7C2BC818F7B6BEF99
 
@@ -204,7 +206,7 @@ class Gen:
             self.add(op, 0, 5, -7)         # negative modulus
         if self.tiny:
             # all a < 2^10 (and negatives) against all moduli < 2^7 / a sample in quick
-            ms = range(1, 128) if not self.quick else sorted(set(rng.sample(range(1, 128), 24)) | {1, 2, 3, 127})
+            ms = sorted(set(rng.sample(range(1, 128), self.n(24, 60))) | {1, 2, 3, 127})
             for m in ms:
                 for a in (range(0, 1024) if not self.quick else rng.sample(range(0, 1024), 40)):
                     for s in (1, -1):
@@ -363,7 +365,7 @@ class Gen:
             step = 1
             for a in range(0, lim, step):
                 for b in range(0, lim, step):
-                    if not self.quick and (a >= 256 or b >= 256) and rng.random() < 0.75:
+                    if not self.quick and (a >= 256 or b >= 256) and rng.random() < 0.9:
                         continue
                     for op in ("bn_gcd_basic", "bn_gcd_lehme", "bn_gcd_binar", "bn_gcd_ext_basic", "bn_gcd_ext_lehme",
                                "bn_gcd_ext_binar"):
@@ -455,7 +457,7 @@ class Gen:
         if not self.tiny:
             cands |= set(p for p in NIST_PRIMES if p.bit_length() <= self.maxbits)
             cands |= {_chernick(22, rng), _chernick(40, rng), _chernick(70, rng) if not self.quick else _chernick(30, rng)}
-            cands |= {(2 ** 127 - 1) * (2 ** 89 - 1), (2 ** 61 - 1) ** 2, (2 ** 521 - 1) * 3, 2 ** 521 + 1}
+            cands |= {SPSP_861, (2 ** 127 - 1) * (2 ** 89 - 1), (2 ** 61 - 1) ** 2, (2 ** 521 - 1) * 3, 2 ** 521 + 1}
         cands = sorted(c for c in cands if c.bit_length() <= self.maxbits)
         for a in cands:
             self.add("bn_is_prime", 0, a)
